@@ -29,14 +29,14 @@ func (txEngine) Name() string { return "chainsim" }
 
 // transaction flavours
 const (
-	txGood = iota
-	txDupEarlier   // resubmit an earlier transaction
-	txExpHeight    // expired by height at creation
-	txExpTime      // expired by time at creation
-	txSoonHeight   // expires a few heights ahead
-	txSoonTime     // expires a few seconds ahead
-	txHeightOK     // height-bound, inside its window
-	txHeightOut    // height-bound, outside its window
+	txGood       = iota
+	txDupEarlier // resubmit an earlier transaction
+	txExpHeight  // expired by height at creation
+	txExpTime    // expired by time at creation
+	txSoonHeight // expires a few heights ahead
+	txSoonTime   // expires a few seconds ahead
+	txHeightOK   // height-bound, inside its window
+	txHeightOut  // height-bound, outside its window
 	txBadSig
 	txLowFee
 	txWrongChain
